@@ -36,6 +36,9 @@ pub struct LinSpec {
     /// weights and bias of the layer are multiplied by 2^scale (exact)
     #[serde(default)]
     pub scale: i8,
+    /// 0 = ordinary width; k > 0 = a wide layer of 15 + k neurons (k <= 9)
+    #[serde(default)]
+    pub wide: u8,
 }
 
 #[derive(Clone, Debug, Serialize, Deserialize)]
@@ -111,7 +114,9 @@ pub fn run_case(c: &Case, ctx: &mut Ctx) -> CaseResult {
     let mut exact = !c.float_regime;
     let mut activated = 0;
     for ls in &c.layers {
-        let width = 1 + (ls.width as usize % W);
+        // widths 1..=4, or (rare) 16..=24 neurons: size-gated fast paths live there
+        let width = if ls.wide > 0 { 15 + (1 + (ls.wide as usize - 1) % 9) } else { 1 + (ls.width as usize % W) };
+        ctx.class_if(width >= 16, "wide_layer");
         let mut a = project_aff(&ls.a, width, dim);
         if ls.scale != 0 && exact {
             let k = 2f64.powi(ls.scale as i32);
@@ -150,7 +155,7 @@ pub fn run_case(c: &Case, ctx: &mut Ctx) -> CaseResult {
             let act = ls.acts.get(row).unwrap_or(&Act::None);
             // size caps: exact rational LP on rounded (53-bit) coefficients is expensive, so
             // float-regime networks get at most 4 activated neurons, exact ones at most 8
-            let cap = if exact { 8 } else { 4 };
+            let cap = if width >= 16 { 3 } else if exact { 8 } else { 4 };
             if activated >= cap {
                 break;
             }
@@ -260,7 +265,7 @@ fn lin_spec(float: bool) -> impl Strategy<Value = LinSpec> {
         proptest::collection::vec(act(), W),
         prop_oneof![9 => Just(0i8), 2 => -16i8..=16],
     )
-        .prop_map(|(a, width, plant, dup, acts, scale)| LinSpec { a, width, plant, dup, acts, scale })
+        .prop_map(|(a, width, plant, dup, acts, scale)| LinSpec { a, width, plant, dup, acts, scale, wide: 0 })
 }
 
 pub struct C01;
@@ -299,8 +304,23 @@ impl Property for C01 {
                 )
             })
             .prop_map(|(float_regime, in_dim, layers, head, post, pre, anchors, points)| Case { in_dim, layers, head, post, pre, anchors, points, float_regime })
-            .prop_flat_map(|c| (Just(c), 0u8..24))
-            .prop_map(|(mut c, regime)| {
+            .prop_flat_map(|c| (Just(c), 0u8..24, 0u8..40, 0u8..9))
+            .prop_map(|(mut c, regime, wide, wk)| {
+                // 2.5 % of the exact networks get a wide hidden layer (16..24 neurons, at most 3 of them
+                // activated) followed by a narrow one: the cells live in the input space (dimension <= 3), so the
+                // oracle's cost does not grow, but terminal maps and compositions are 16..24 wide
+                if !c.float_regime && wide == 0 {
+                    if c.layers.len() < 2 {
+                        let l = c.layers[0].clone();
+                        c.layers.push(l);
+                    }
+                    let last = c.layers.len() - 1;
+                    for (i, l) in c.layers.iter_mut().enumerate() {
+                        if i == 0 && i != last {
+                            l.wide = 1 + wk;
+                        }
+                    }
+                }
                 // ~4 % of the exact-regime networks have uniformly tiny (2^-20 per layer) or large (2^10)
                 // weights and biases, without planted breakpoints (a planted bias of order 1 next to
                 // weights of order 1e-6 would create badly conditioned rows rather than test the builder)
